@@ -497,6 +497,16 @@ func (g *gramInterp) expr(e ast.Expr, in gramState) gramState {
 		// write sites
 		if text, opaque, ok := g.writeSite(x); ok {
 			if opaque {
+				// a local that only ever holds string constants stands for each of them
+				if alts := g.localStringValues(x); len(alts) > 0 {
+					out := gramState{}
+					for _, a := range alts {
+						for cfg := range g.emit(s, a, pos) {
+							out[cfg] = true
+						}
+					}
+					return out
+				}
 				return g.emit(s, "¤", pos)
 			}
 			return g.emit(s, text, pos)
@@ -695,6 +705,129 @@ func (g *gramInterp) writeSite(call *ast.CallExpr) (text string, opaque bool, ok
 		return "", true, true
 	}
 	return "", false, false
+}
+
+// localStringValues: for a write site whose argument is (a conversion of) a local variable every definition of
+// which, in the function that declares it, is a string constant, the sorted set of those constants; nil otherwise.
+func (g *gramInterp) localStringValues(call *ast.CallExpr) []string {
+	info := g.p.TypesInfo
+	if len(call.Args) == 0 {
+		return nil
+	}
+	arg := core.Unparen(call.Args[len(call.Args)-1])
+	if conv, isCall := arg.(*ast.CallExpr); isCall && len(conv.Args) == 1 {
+		if tv, isT := info.Types[conv.Fun]; isT && tv.IsType() {
+			arg = core.Unparen(conv.Args[0])
+		}
+	}
+	id, ok := arg.(*ast.Ident)
+	if !ok {
+		return nil
+	}
+	obj, ok := core.ObjOf(info, id).(*types.Var)
+	if !ok || obj.IsField() || obj.Parent() == g.p.Types.Scope() {
+		return nil
+	}
+	var home *ast.FuncDecl
+	for _, fd := range g.decls {
+		if fd.Body != nil && fd.Body.Pos() <= obj.Pos() && obj.Pos() < fd.Body.End() {
+			home = fd
+		}
+	}
+	if home == nil {
+		return nil // a parameter or a variable of another package
+	}
+	vals := map[string]bool{}
+	good := true
+	var suffixes []string // constants appended with +=
+	var loops []ast.Node
+	ast.Inspect(home.Body, func(n ast.Node) bool {
+		switch n.(type) {
+		case *ast.ForStmt, *ast.RangeStmt:
+			loops = append(loops, n)
+		}
+		return true
+	})
+	inLoop := func(n ast.Node) bool {
+		for _, l := range loops {
+			if l.Pos() <= n.Pos() && n.End() <= l.End() {
+				return true
+			}
+		}
+		return false
+	}
+	add := func(e ast.Expr) {
+		if s, isConst := constString(info, e); isConst {
+			vals[s] = true
+		} else {
+			good = false
+		}
+	}
+	ast.Inspect(home.Body, func(n ast.Node) bool {
+		switch x := n.(type) {
+		case *ast.AssignStmt:
+			for i, l := range x.Lhs {
+				if lid, ok := l.(*ast.Ident); ok && core.ObjOf(info, lid) == obj {
+					switch {
+					case len(x.Lhs) != len(x.Rhs):
+						good = false
+					case x.Tok == token.ASSIGN || x.Tok == token.DEFINE:
+						add(x.Rhs[i])
+					case x.Tok == token.ADD_ASSIGN:
+						if sfx, isConst := constString(info, x.Rhs[i]); isConst && !inLoop(x) {
+							suffixes = append(suffixes, sfx)
+						} else {
+							good = false
+						}
+					default:
+						good = false
+					}
+				}
+			}
+		case *ast.ValueSpec:
+			for i, nm := range x.Names {
+				if info.Defs[nm] == obj {
+					if i < len(x.Values) {
+						add(x.Values[i])
+					} else {
+						vals[""] = true
+					}
+				}
+			}
+		case *ast.UnaryExpr:
+			if x.Op == token.AND {
+				if aid, ok := core.Unparen(x.X).(*ast.Ident); ok && core.ObjOf(info, aid) == obj {
+					good = false
+				}
+			}
+		case *ast.RangeStmt:
+			for _, e := range []ast.Expr{x.Key, x.Value} {
+				if rid, ok := e.(*ast.Ident); ok && core.ObjOf(info, rid) == obj {
+					good = false
+				}
+			}
+		}
+		return true
+	})
+	if !good || len(vals) == 0 {
+		return nil
+	}
+	// each += outside a loop runs at most once, in source order (one inside a loop gives up)
+	for _, sfx := range suffixes {
+		var add []string
+		for v := range vals {
+			add = append(add, v+sfx)
+		}
+		for _, v := range add {
+			vals[v] = true
+		}
+	}
+	var out []string
+	for v := range vals {
+		out = append(out, v)
+	}
+	sort.Strings(out)
+	return out
 }
 
 // runGrammar interprets each entry point from the neutral state and requires a neutral state at every exit.
@@ -919,6 +1052,124 @@ func E6MemoIndependent(c *core.Ctx, r *core.Report) {
 }
 
 func ei0(s ast.Stmt) ast.Node { return s }
+
+// E6MemoStoresCompared: a memoising setter remembers every parameter it compares.
+func E6MemoStoresCompared(c *core.Ctx, r *core.Report) {
+	r.Rule("E6.memo-stores-compared", "in the PDF and PostScript writers a setter skips its output when the state it remembered equals its arguments. Every receiver field that such a method (one that compares and assigns at least one field) compares with something computed from a parameter, in an if condition, is also assigned in that method: a field that is compared but never stored keeps the value it got when the page was opened, so the comparison is made against stale state and a later call with the old arguments emits nothing (SetFont that forgets the direction: horizontal text after vertical text of the same font and size is shown with the vertical font)")
+	n := 0
+	for _, rel := range []string{"renderers/pdf", "renderers/ps"} {
+		p := c.MustPkg(rel)
+		info := p.TypesInfo
+		for _, fd := range core.AllFuncDecls(p) {
+			if fd.Recv == nil || len(fd.Recv.List) == 0 || len(fd.Recv.List[0].Names) == 0 || fd.Body == nil {
+				continue
+			}
+			recv := info.Defs[fd.Recv.List[0].Names[0]]
+			params := map[types.Object]bool{}
+			for _, f := range fd.Type.Params.List {
+				for _, nm := range f.Names {
+					params[info.Defs[nm]] = true
+				}
+			}
+			if recv == nil || len(params) == 0 {
+				continue
+			}
+			fieldOf := func(e ast.Expr) string {
+				sel, ok := core.Unparen(e).(*ast.SelectorExpr)
+				if !ok {
+					return ""
+				}
+				id, ok := core.Unparen(sel.X).(*ast.Ident)
+				if !ok || core.ObjOf(info, id) != recv {
+					return ""
+				}
+				if s := info.Selections[sel]; s == nil || s.Kind() != types.FieldVal {
+					return ""
+				}
+				return sel.Sel.Name
+			}
+			mentionsParam := func(e ast.Node) bool {
+				hit := false
+				ast.Inspect(e, func(m ast.Node) bool {
+					if id, ok := m.(*ast.Ident); ok && params[core.ObjOf(info, id)] {
+						hit = true
+					}
+					return !hit
+				})
+				return hit
+			}
+			compared := map[string]token.Pos{}
+			assigned := map[string]bool{}
+			ast.Inspect(fd.Body, func(m ast.Node) bool {
+				switch x := m.(type) {
+				case *ast.IfStmt:
+					ast.Inspect(x.Cond, func(k ast.Node) bool {
+						switch y := k.(type) {
+						case *ast.BinaryExpr:
+							if y.Op == token.EQL || y.Op == token.NEQ {
+								if fn := fieldOf(y.X); fn != "" && mentionsParam(y.Y) {
+									compared[fn] = y.Pos()
+								}
+								if fn := fieldOf(y.Y); fn != "" && mentionsParam(y.X) {
+									compared[fn] = y.Pos()
+								}
+							}
+						case *ast.CallExpr:
+							// p.Equal(w.f) / w.f.Equal(p) / reflect.DeepEqual(w.f, p)
+							var parts []ast.Expr
+							if se, ok := y.Fun.(*ast.SelectorExpr); ok {
+								parts = append(parts, se.X)
+							}
+							parts = append(parts, y.Args...)
+							for i, a := range parts {
+								if fn := fieldOf(a); fn != "" {
+									for j, b := range parts {
+										if i != j && mentionsParam(b) {
+											compared[fn] = y.Pos()
+										}
+									}
+								}
+							}
+						}
+						return true
+					})
+				case *ast.AssignStmt:
+					for _, l := range x.Lhs {
+						if fn := fieldOf(l); fn != "" {
+							assigned[fn] = true
+						}
+					}
+				}
+				return true
+			})
+			memo := false
+			for fn := range compared {
+				if assigned[fn] {
+					memo = true
+				}
+			}
+			if !memo {
+				continue
+			}
+			var names []string
+			for fn := range compared {
+				names = append(names, fn)
+			}
+			sort.Strings(names)
+			for _, fn := range names {
+				n++
+				key := fmt.Sprintf("%s.%s|memo field %s", p.Types.Name(), core.FuncName(fd), fn)
+				if assigned[fn] {
+					r.OK("E6.memo-stores-compared", key, c.Pos(compared[fn]), "")
+				} else {
+					r.Fail("E6.memo-stores-compared", key, c.Pos(compared[fn]), fmt.Sprintf("%s compares the field `%s` with its argument to decide whether to emit, and stores the other fields it compares, but never assigns `%s`: the field keeps the value set when the page was opened, the test is made against stale state, and a call that returns to the earlier arguments emits nothing", core.FuncName(fd), fn, fn))
+				}
+			}
+		}
+	}
+	r.Count("E6.memo-stores-compared", n)
+	r.Floor("E6.memo-stores-compared", 10)
+}
 
 // E6MemoSharedState: a memoising setter does not skip re-establishing state that other setters can change.
 func E6MemoSharedState(c *core.Ctx, r *core.Report) {
